@@ -203,6 +203,11 @@ class TraceRun:
         if info.get("kind") == "region_entry" and model:
             base = self.snap[-1][5] if self.snap else self.ie_cur
             self.ie_cur = bool(base) or any(x == 0 for x in model[-1])
+            if self.snap:
+                # the second branch of an if_then_else starts from the state at entry, whatever the first branch
+                # switched (restore_guard put it back)
+                self.user_ie = self.snap[-1][4]
+                self.w.rec.user_nocheck = self.user_ie
             self.cur_desc = {"op": "add_guard"}
         if self.faults.get("abort_stmt") == site:
             self.probe("abort_stmt_fired")
@@ -546,12 +551,19 @@ class NArray:
                 if value is r:
                     new.append(r)
                 elif j == i:
-                    new.append(NArray(value) if isinstance(value, NArray) else value)
+                    new.append(_ndeep(value))
                 else:
-                    new.append(NArray(r) if isinstance(r, NArray) else r)
+                    new.append(_ndeep(r))
             self.arr = new
             return
         self.arr[self._ix(item)] = value
+
+
+def _ndeep(x):
+    """Selection between arrays computes every element anew, at every depth."""
+    if isinstance(x, NArray):
+        return NArray([_ndeep(y) for y in x.arr])
+    return x
 
 
 def _nadd(self, other):
@@ -572,7 +584,7 @@ NArray.__rmul__ = _nmul
 
 class NRow(NArray):
     def __init__(self, base):
-        self.arr = list(base.arr)     # a row read at a secret index is a value, not a view
+        self.arr = [_ndeep(y) for y in base.arr]     # a row read at a secret index is a value, not a view
 
     def __setitem__(self, item, value):
         raise TypeError("Cannot set value in a returned array row")
@@ -617,7 +629,9 @@ def run_native(plan, inputs=None, snapshots=None, alt=None):
          "__set_res__": lambda r: None, "__set_bl__": lambda b: None,
          "__ret__": lambda vals: rets.append({nm: snapshot_values(v) for nm, v in vals.items()}), "__alt__": alt,
          "__callend__": lambda n, ret: calls.__setitem__(n, _plain(ret)),
-         "__enter__": lambda *a: None, "__leave__": lambda *a: None}
+         "__enter__": lambda *a: None, "__leave__": lambda *a: None,
+         # regions under a (plain) condition: the body runs iff the condition is 1
+         "__cv__": lambda c: int(c), "guarded": lambda c: (lambda f: (lambda: f() if int(c) == 1 else None))}
     try:
         exec(compile(src, "<native>", "exec"), g)
         outcome = "completed"
